@@ -226,13 +226,14 @@ func writesetRules(c *Ctx) {
 		sort.Strings(bad)
 		c.S.Decide(len(bad) == 0, "C19", "WRITESET", "FixEmptyResponseDescriptions/only-descriptions", c.P.Pos(fix.Decl.Pos()),
 			fmt.Sprintf("all %d transitive writes store a Response.Description or write a range copy back to its own map entry", n), strings.Join(bad, "; "))
-		if n < 3 {
+		if n < 2 {
 			c.S.Undecided("C19", "WRITESET", "floor", "-", "fewer writes than confirmed by hand (3)")
 		}
 	}
 }
 
-// isWriteBackOfRangeCopy: the write is `M[k] = v` inside `for k, v := range M`.
+// isWriteBackOfRangeCopy: the write is `M[k] = v` where v is a local copy of that very entry:
+// the value variable of `for k, v := range M`, or `v := M[k]`; M a map of spec.Response.
 func isWriteBackOfRangeCopy(c *Ctx, w effWrite) bool {
 	fi := w.fn
 	if fi == nil {
@@ -241,27 +242,36 @@ func isWriteBackOfRangeCopy(c *Ctx, w effWrite) bool {
 	info := fi.Pkg.TypesInfo
 	found := false
 	ast.Inspect(fi.Decl.Body, func(n ast.Node) bool {
-		rs, ok := n.(*ast.RangeStmt)
-		if !ok || rs.Key == nil || rs.Value == nil {
+		as, ok := n.(*ast.AssignStmt)
+		if !ok || as.Pos() != w.pos || len(as.Lhs) != 1 || len(as.Rhs) != 1 {
 			return true
 		}
-		ast.Inspect(rs.Body, func(m ast.Node) bool {
-			as, ok := m.(*ast.AssignStmt)
-			if !ok || as.Pos() != w.pos || len(as.Lhs) != 1 || len(as.Rhs) != 1 {
-				return true
-			}
-			ix, ok := core.Unparen(as.Lhs[0]).(*ast.IndexExpr)
-			if !ok {
-				return true
-			}
-			if mt, ok := info.TypeOf(ix.X).Underlying().(*types.Map); !ok || !core.IsSpecType(mt.Elem(), "Response") {
-				return true
-			}
-			if exprStr(ix.X) == exprStr(rs.X) && core.ObjOf(info, ix.Index) == core.ObjOf(info, rs.Key) && core.ObjOf(info, as.Rhs[0]) == core.ObjOf(info, rs.Value) && core.ObjOf(info, rs.Value) != nil {
+		ix, ok := core.Unparen(as.Lhs[0]).(*ast.IndexExpr)
+		if !ok {
+			return true
+		}
+		if mt, ok := info.TypeOf(ix.X).Underlying().(*types.Map); !ok || !core.IsSpecType(mt.Elem(), "Response") {
+			return true
+		}
+		vo := core.ObjOf(info, as.Rhs[0])
+		if vo == nil {
+			return true
+		}
+		defs := c.P.Locals(fi).Defs[vo]
+		if len(defs) != 1 {
+			return true
+		}
+		switch d := defs[0]; d.Kind {
+		case core.DefRangeVal:
+			rs := d.Node.(*ast.RangeStmt)
+			if sameExpr(rs.X, ix.X) && rs.Key != nil && core.ObjOf(info, rs.Key) == core.ObjOf(info, ix.Index) && core.ObjOf(info, ix.Index) != nil {
 				found = true
 			}
-			return true
-		})
+		case core.DefAssign:
+			if src, ok := core.Unparen(d.Expr).(*ast.IndexExpr); ok && sameExpr(src.X, ix.X) && sameExpr(src.Index, ix.Index) {
+				found = true
+			}
+		}
 		return true
 	})
 	return found
